@@ -12,7 +12,8 @@ shape, every mix of zero-halo / periodic / PEC / PMC faces, every metric (non-un
   C01_lossy_nonincreasing   0 ≤ σ, 0 ≤ c, 0 ≤ η₀, 0 ≤ widths → Q (forward s) ≤ Q s      (ordered field)
   C01_walls_preserved       forward keeps the wall conditions (so the hypotheses hold again after a step)
 
-Not covered by a theorem (K + S only): Bloch phases (complex fields) — see `not_shown` in props/C01.json.
+Bloch phases (complex fields, sesquilinear energy): `FdtdxProps/C01Bloch.lean` (conservation, exact lossy balance)
+and `FdtdxProps/C01BlochLossy.lean` (dissipation ≥ 0, non-increase over any number of steps).
 -/
 import FdtdxLemmas.CurlAdjoint
 import Mathlib.Algebra.Order.Field.Basic
